@@ -208,8 +208,17 @@ func c13ObserveX(o *out, kind string, c hcfg, vs []int64) {
 	o.printf("%s %d %d %d", kind, c.lo, c.hi, c.s)
 	c13PrintValues(o, vs)
 	o.printf(" |")
-	// Export / Import
-	h2 := hdrhist.Import(h.Export())
+	// Export / Import: the snapshot is taken, THEN the source histogram keeps recording (and a second snapshot is
+	// imported and recorded into), and only then is the first snapshot imported: it must still hold exactly vs
+	snap := h.Export()
+	other := hdrhist.Import(h.Export())
+	for _, v := range vs {
+		_ = h.RecordValue(v)
+		_ = other.RecordValue(v)
+	}
+	_ = h.RecordValue(c.lo)
+	h, _ = c13Hist(c, vs) // an independent histogram holding vs, for the comparisons below
+	h2 := hdrhist.Import(snap)
 	o.printf(" %d %d", b2i(h2.Equals(h) && h.Equals(h2)), h2.TotalCount())
 	// BSON
 	if b, err := h.MarshalBSON(); err != nil {
